@@ -26,41 +26,49 @@
    interpreter and compared with the real run of the same history without the failing inputs. *)
 EXTENDS Integers, Sequences, TLC, Json, GrolPrims
 
-CONSTANTS NumRegisters, MaxOps, Bursts, WriterRestored, LoopReleases, EmitOn
+CONSTANTS NumRegisters, MaxOps, Bursts, WriterRestored, LoopReleases, MacroStateFresh, EmitOn
 
 \* "loopvar" reads a counted-loop variable after its loop (hidden while registers are available); "deep" recurses to just
 \* below the depth limit (fails if a failed input left depth levels behind)
-GoodKinds == {"print", "loop", "call", "define", "incr", "loopvar", "deep"}
+\* "macro" expands and evaluates a macro call (fails if a failed expansion left the macro evaluator dirty)
+GoodKinds == {"print", "loop", "call", "define", "incr", "loopvar", "deep", "macro"}
 FailKinds == {"err-nested-calls", "err-in-top-loop", "err-in-nested-loops", "panic-in-function", "depth-overflow", "deadline", "memory-guard",
-              "panic-in-top-loop", "memory-guard-top-level", "depth-overflow-expression"}
+              "panic-in-top-loop", "memory-guard-top-level", "depth-overflow-expression",
+              \* a call written directly at the top level that fails while its arguments are bound (count, constant parameter)
+              "arity-error-top-call", "param-bind-error-top-call",
+              \* failures while a macro BODY is evaluated during expansion (its own evaluator state)
+              "depth-overflow-in-macro-body", "error-in-macro-body", "deadline-in-macro-body"}
 
-VARIABLES writer, scope, depth, regs, clean, hist
-vars == <<writer, scope, depth, regs, clean, hist>>
+VARIABLES writer, scope, depth, regs, macro, clean, hist
+vars == <<writer, scope, depth, regs, macro, clean, hist>>
 view == vars   \* every history is a distinct behaviour to replay (the abstract state alone is tiny)
 
-Init == writer = "session" /\ scope = "top" /\ depth = 0 /\ regs = 0 /\ clean = TRUE /\ hist = <<>>
+Init == writer = "session" /\ scope = "top" /\ depth = 0 /\ regs = 0 /\ macro = 0 /\ clean = TRUE /\ hist = <<>>
 
-IsClean == writer = "session" /\ scope = "top" /\ depth = 0 /\ regs = 0
+\* macro: depth levels left in the evaluator used for macro bodies (0 when every expansion gets a fresh one)
+IsClean == writer = "session" /\ scope = "top" /\ depth = 0 /\ regs = 0 /\ macro = 0
 
 \* a good input shows its normal output iff the session is clean (a counted loop also needs a register)
 Good(k) ==
   /\ Len(hist) < MaxOps
   /\ clean' = (clean /\ IsClean)
-  /\ UNCHANGED <<writer, scope, depth, regs>>
+  /\ UNCHANGED <<writer, scope, depth, regs, macro>>
   /\ hist' = Append(hist, <<"good", k, 1>>)
 
 RECURSIVE After(_, _, _)
-\* state after n failing inputs of kind k: <<writer, regs>> (scope and depth are reset by Reset / normal unwinding)
+\* state after n failing inputs of kind k: <<writer, regs, macro>> (scope and depth are reset by Reset / normal unwinding)
 After(k, n, st) ==
   IF n = 0 THEN st
-  ELSE LET w == IF k \in {"panic-in-function", "depth-overflow", "memory-guard", "panic-in-top-loop"} /\ ~WriterRestored THEN "dead" ELSE st[1]
+  ELSE LET w == IF k \in {"panic-in-function", "depth-overflow", "memory-guard", "panic-in-top-loop",
+                          "arity-error-top-call", "param-bind-error-top-call"} /\ ~WriterRestored THEN "dead" ELSE st[1]
+           m == IF k = "depth-overflow-in-macro-body" /\ ~MacroStateFresh THEN 1 ELSE st[3]
            r == IF k \in {"err-in-top-loop", "err-in-nested-loops", "panic-in-top-loop"} /\ ~LoopReleases
                 THEN (IF st[2] + 1 > NumRegisters THEN NumRegisters ELSE st[2] + 1) ELSE st[2]
-       IN After(k, n - 1, <<w, r>>)
+       IN After(k, n - 1, <<w, r, m>>)
 
 Fail(k, n) ==
   /\ Len(hist) < MaxOps
-  /\ LET a == After(k, n, <<writer, regs>>) IN writer' = a[1] /\ regs' = a[2]
+  /\ LET a == After(k, n, <<writer, regs, macro>>) IN writer' = a[1] /\ regs' = a[2] /\ macro' = a[3]
   /\ UNCHANGED <<scope, depth, clean>>
   /\ hist' = Append(hist, <<"fail", k, n>>)
 
